@@ -15,6 +15,7 @@ import hashlib
 import json
 import multiprocessing
 import os
+import subprocess
 import sys
 import time
 import traceback
@@ -185,6 +186,10 @@ def _worker_init():
     sys.stdout = devnull
 
 
+_UNITS = []
+_HISTORY = []
+
+
 def _run_unit(unit):
     acc = Acc()
     try:
@@ -194,7 +199,46 @@ def _run_unit(unit):
             explore(_CHECK, unit, acc, _SEED)
     except Exception:
         acc.harness_errors.append(traceback.format_exc()[-3000:])
+    try:
+        idx = _UNITS.index(unit)
+    except ValueError:
+        idx = None
+    _HISTORY.append(idx)
+    for v in acc.violations:
+        v['unit_history'] = list(_HISTORY)          # the units this worker process has executed so far, this one last
     return acc
+
+
+def _signatures_of(check, case):
+    sink = Acc()
+    saved = sys.stdout
+    try:
+        sys.stdout = open(os.devnull, 'w')
+        try:
+            vs = check.run_case(case, sink)
+        except Exception:
+            vs = [{'signature': '%s|unexpected-exception|%s' % (check.ID, _exc_site())}]
+    finally:
+        sys.stdout = saved
+    return sorted(set(x['signature'] for x in vs))
+
+
+def replay_with_history(check, units, case, sig):
+    """Run the cases of `units` (the units one worker process executed, in its order) up to and including `case`, in this
+    process: the number of cases executed when `sig` shows on `case`, or None.  Used when a violation seen during exploration
+    does not show on the case alone, i.e. when the code under test carries state from one execution to the next
+    (module-level or operator-level caches)."""
+    if hasattr(check, 'run_unit'):
+        return None
+    want = json.dumps(jsonable(case), sort_keys=True)
+    n = 0
+    for k, unit in enumerate(units):
+        for c in check.cases(unit):
+            n += 1
+            sigs = _signatures_of(check, c)
+            if k == len(units) - 1 and json.dumps(jsonable(c), sort_keys=True) == want:
+                return n if sig in sigs else None
+    return None
 
 
 def load_known():
@@ -210,10 +254,11 @@ def jsonable(obj):
 
 
 def run_check(check, tier, seed, workers=None, budget=None, out=sys.stdout):
-    global _CHECK, _SEED
+    global _CHECK, _SEED, _UNITS
     _CHECK, _SEED = check, seed
     t0 = time.time()
     units = list(check.units(tier))
+    _UNITS = units
     workers = workers or min(16, os.cpu_count() or 1)
     agg = Acc()
     exhaustive = True
@@ -287,22 +332,32 @@ def run_check(check, tier, seed, workers=None, budget=None, out=sys.stdout):
             lines.append('VIOLATION property=%s replay=%s signature=%s cases=%d' % (check.ID, path, sig, counts[sig]))
             continue
         # replay twice in this process before believing it
-        confirmed = []
-        for _ in range(2):
-            sink = Acc()
-            saved = sys.stdout
-            try:
-                sys.stdout = open(os.devnull, 'w')
-                try:
-                    vs = check.run_case(v['case'], sink)
-                except Exception:
-                    vs = [{'signature': '%s|unexpected-exception|%s' % (check.ID, _exc_site())}]
-            finally:
-                sys.stdout = saved
-            confirmed.append(sorted(set(x['signature'] for x in vs)))
+        confirmed = [_signatures_of(check, v['case']) for _ in range(2)]
         if confirmed[0] != confirmed[1] or sig not in confirmed[0]:
-            print('HARNESS-ERROR: replay of %s is not deterministic: %r' % (sig, confirmed), file=out)
-            return 2
+            # The oracle of a case depends on that case only, and the unchanged tree gives the same verdict in every process,
+            # so a verdict that changes with what ran before means that the code under test keeps state across executions.
+            # Reproduce it with its history: the cases of its unit, in order, in one process.
+            hist = v.pop('unit_history', None) or []
+            hunits = [units[i] for i in hist] if hist and all(i is not None for i in hist) else None
+            v = dict(v, detail=dict(v.get('detail') or {}, history_dependent=(
+                'this case alone gives %r; the violation showed when other cases had been executed before it in the same process '
+                '(state kept across executions by the code under test)' % (confirmed,))))
+            reproduced = False
+            if hunits is not None:
+                # a fresh interpreter (this process has already executed cases): first the unit of the case alone, then
+                # everything its worker had executed before it
+                for cand in ([hunits[-1]], hunits) if len(hunits) > 1 else ([hunits[-1]],):
+                    v['history'] = {'units': cand}
+                    path = write_replay(check, v, counts[sig])
+                    r = subprocess.run([sys.executable, '-m', 'mc.replay', path], cwd=VERIF, capture_output=True, text=True,
+                                       env=dict(os.environ, PYTHONHASHSEED='0'))
+                    if r.returncode == 1:
+                        reproduced = True
+                        break
+            if not reproduced:
+                v.pop('history', None)
+                if sig not in confirmed[0] and sig not in confirmed[1]:
+                    v['detail']['history_dependent'] += '; not reproduced from the history of its worker: seen during exploration only'
         path = write_replay(check, v, counts[sig])
         match = [k for k in known if fnmatchcase(sig, k.get('signature', ''))]
         if match:
@@ -345,6 +400,7 @@ def write_replay(check, v, ncases):
         'cases_with_this_signature': ncases,
         'case': jsonable(v['case']),
         'detail': jsonable(v.get('detail')),
+        'history': jsonable(v.get('history')),
         'replay_cmd': 'cd /verif && PYTHONHASHSEED=0 /venv/bin/python -m mc.replay %s' % path,
     }
     if hasattr(check, 'unit_test'):
